@@ -114,8 +114,9 @@ Definition accepts (t : ftype) (v : jval) : bool :=
   | FMap, JObj _ => true
   | _, _ => false end.
 
-(* json.Unmarshal(data, &info): members in document order; null leaves a field alone (except
-   json.RawMessage, which stores the literal); a value of the wrong type is an error. *)
+(* json.Unmarshal(data, &info): members in document order; null leaves a string or bool alone, sets
+   a slice or pointer to nil, and is stored literally by json.RawMessage; a value of the wrong type
+   is an error. *)
 Fixpoint decode_known (d : doc) (acc : doc) : option doc :=
   match d with
   | [] => Some acc
@@ -125,6 +126,7 @@ Fixpoint decode_known (d : doc) (acc : doc) : option doc :=
       | Some (name, (t, _)) =>
           match v, t with
           | JNull, FRaw => decode_known r (dput name JNull acc)
+          | JNull, FList | JNull, FInt => decode_known r (dremove name acc)
           | JNull, _ => decode_known r acc
           | _, FMap => if accepts FMap v then decode_known r acc else None   (* overwritten below *)
           | _, _ => if accepts t v then decode_known r (dput name v acc) else None
